@@ -321,6 +321,15 @@ type raceReport struct {
 // each to the pair of first library frames of its two stacks.
 func parseRaces(stderr string) []raceReport {
 	var out []raceReport
+	// race witnesses printed by the race scenario itself: effects that only an
+	// unsynchronised use of shared state can produce, in code the detector does
+	// not instrument (scen_race.go: identical nonces in different datagrams)
+	for _, l := range strings.Split(stderr, "\n") {
+		if rest, ok := strings.CutPrefix(l, "RACE-WITNESS: "); ok {
+			sig, text, _ := strings.Cut(rest, " :: ")
+			out = append(out, raceReport{sig: "witness:" + sig, text: text, inLib: true})
+		}
+	}
 	blocks := strings.Split(stderr, "WARNING: DATA RACE")
 	for _, b := range blocks[1:] {
 		if i := strings.Index(b, "=================="); i >= 0 {
